@@ -359,6 +359,93 @@ func c16(c *Ctx) {
 		}
 	}
 
+	// Publishing the delegate to readers that do not take the lock (an atomic Store into a field of the placeholder holder) is
+	// only safe once every placeholder has been handed its delegate: a reader that sees the delegate early bypasses the
+	// placeholders, and what it passes on (a not yet delegated observable, a callback) reaches the SDK unresolved.
+	defer func() {
+		for _, typ := range []string{"meterProvider", "meter", "tracerProvider"} {
+			fn := gx.Func("(*" + typ + ").setDelegate")
+			if fn == nil || fn.Recv() == nil {
+				continue
+			}
+			sig := fn.Obj.Type().(*types.Signature)
+			if sig.Params().Len() < 1 {
+				continue
+			}
+			del := sig.Params().At(0)
+			g := gx.FG(fn)
+			// the delegate itself, or something obtained from it (meter := provider.Meter(…))
+			var mentionsDelD func(e ast.Node, d int) bool
+			mentionsDelD = func(e ast.Node, d int) bool {
+				hit := false
+				ast.Inspect(e, func(n ast.Node) bool {
+					if id, ok := n.(*ast.Ident); ok {
+						o := info.Uses[id]
+						if o == types.Object(del) {
+							hit = true
+						} else if o != nil && d < 3 && definedIn(info, fn.Body(), o) {
+							inspectNoLit(fn.Body(), func(m ast.Node) bool {
+								if as, isAs := m.(*ast.AssignStmt); isAs && len(as.Lhs) == len(as.Rhs) {
+									for i, l := range as.Lhs {
+										if lid, isID := unparen(l).(*ast.Ident); isID && info.ObjectOf(lid) == o && mentionsDelD(as.Rhs[i], d+1) {
+											hit = true
+										}
+									}
+								}
+								return !hit
+							})
+						}
+					}
+					return !hit
+				})
+				return hit
+			}
+			mentionsDel := func(e ast.Node) bool { return mentionsDelD(e, 0) }
+			stores := g.Match(func(n ast.Node) bool {
+				call, ok := n.(*ast.CallExpr)
+				if !ok {
+					return false
+				}
+				recv, m := methodCall(info, call)
+				if m == nil || m.Name() != "Store" || m.Pkg() == nil || m.Pkg().Path() != "sync/atomic" || recv == nil {
+					return false
+				}
+				_, base := fieldOf(info, recv)
+				if base == nil || objOf(info, base) != types.Object(fn.Recv()) {
+					return false
+				}
+				for _, a := range call.Args {
+					if mentionsDel(a) {
+						return true
+					}
+				}
+				return false
+			})
+			if len(stores) == 0 {
+				continue
+			}
+			walks := toSet(g.Match(func(n ast.Node) bool {
+				call, ok := n.(*ast.CallExpr)
+				if !ok {
+					return false
+				}
+				cf := callee(info, call)
+				return cf != nil && cf.Name() == "setDelegate" && cf.Origin() != fn.Obj.Origin()
+			}))
+			early := ""
+			for _, st := range stores {
+				after, _ := g.Reach([]*GNode{st}, nil, nil)
+				for y := range after {
+					if walks[y] {
+						early = gx.M.posStr(st.N.Pos()) + " is followed by the placeholder walk at " + gx.M.posStr(y.N.Pos())
+					}
+				}
+			}
+			c.Check(early == "", "R4", "global|(*"+typ+").setDelegate|lock-free publication of the delegate comes after the placeholders were delegated", at(gx.M, fn.Pos()),
+				itoa(len(stores))+" atomic publication(s), none ahead of a placeholder's setDelegate",
+				"the delegate is published to lock-free readers before the placeholders have theirs ("+early+"): a concurrent call that takes the fast path hands a not yet delegated instrument or callback to the SDK, which rejects or loses it")
+		}
+	}()
 	c.Rule("R4", "E3 total fan-out + ordering", "setDelegate visits every placeholder/registration and then clears the collections; Set*Provider: setDelegate only inside the sync.Once, global Store after it; registration.setDelegate skips unregistered callbacks", 8)
 	for _, sp := range []struct{ fn, target string }{
 		{"(*meterProvider).setDelegate", "(*meter).setDelegate"}, {"(*tracerProvider).setDelegate", "(*tracer).setDelegate"},
